@@ -52,6 +52,17 @@ pub fn supported_tests() -> Vec<E> {
         t(Tst::Perm(PKind::Equal, 0o644)),
         t(Tst::Perm(PKind::AtLeast, 0o111)),
         t(Tst::Perm(PKind::Any, 0o222)),
+        // tests with a constant answer (nothing is below zero or above the maximum; no bit asked
+        // for): a reasoning about dead branches must not change what the expression does
+        t(Tst::Uid(Cmp::Lt, 0)),
+        t(Tst::Gid(Cmp::Gt, u32::MAX)),
+        t(Tst::Size(Cmp::Lt, 0, SUnit::K)),
+        t(Tst::Links(Cmp::Lt, 0)),
+        t(Tst::Time(Which::M, Cmp::Lt, 0, TUnit::D)),
+        t(Tst::Perm(PKind::AtLeast, 0)),
+        t(Tst::Perm(PKind::Any, 0)),
+        t(Tst::Name(s("*"))),
+        t(Tst::Type(FT::ALL.to_vec())),
     ]
 }
 
@@ -174,4 +185,59 @@ where
         if denom <= 1 { "all of them".to_string() } else { format!("the seed-selected 1/{denom} slice") }
     ));
     st
+}
+
+/// Requests whose parts, written one after the other without a separator, spell the same text:
+/// a registry keyed by a concatenation (pattern + flag suffix, file name + terminator, function
+/// name + pattern) takes them for one request.  Different requests, so: different resources.
+pub fn concat_twin_trees() -> Vec<E> {
+    let mut out = vec![];
+    let framers = [None, Some(Act::Print0), Some(Act::FPrint(s("twin.out")))];
+    let mut push = |a: E, b: E, out: &mut Vec<E>| {
+        for (k, f) in framers.iter().enumerate() {
+            let t = if k % 2 == 0 { E::or(a.clone(), b.clone()) } else { E::or(b.clone(), a.clone()) };
+            out.push(match f {
+                None => t,
+                Some(act) => E::and(t, E::A(act.clone())),
+            });
+            out.push(match f {
+                None => E::or(b.clone(), a.clone()),
+                Some(act) => E::and(E::or(b.clone(), a.clone()), E::A(act.clone())),
+            });
+        }
+    };
+    for x in ["a", "x*", "README", "[ab]c"] {
+        for fix in ["-ci", "ci", "-i", "i", "I", "1", "true", "false", "#t", "#f", "?", "*", "fnmatch", "streq", "fnmatch-ci", "streq-ci"] {
+            for (long, short) in [(format!("{x}{fix}"), x.to_string()), (format!("{fix}{x}"), x.to_string())] {
+                push(E::T(Tst::Name(long.clone())), E::T(Tst::IName(short.clone())), &mut out);
+                push(E::T(Tst::IName(long.clone())), E::T(Tst::Name(short.clone())), &mut out);
+                push(E::T(Tst::Path(long.clone())), E::T(Tst::IPath(short.clone())), &mut out);
+                push(E::T(Tst::Name(long.clone())), E::T(Tst::Path(short.clone())), &mut out);
+            }
+        }
+    }
+    // file destinations: name + terminator
+    let fmt = || vec![FEl::F(Fld::NameNoStart)];
+    for name in ["out", "a b", "é"] {
+        // the name followed by the terminator character itself, or by a spelling of it
+        for suffix in ["\n", "\0", "#f", "None", "10", "0", "\\n", "\\0", "\\x0a", "x0a", "0a", "00"] {
+            let long = format!("{name}{suffix}");
+            for short in [Act::FPrint(s(name)), Act::FPrint0(s(name)), Act::FPrintf(s(name), fmt())] {
+                for longa in [Act::FPrintf(long.clone(), fmt()), Act::FPrint(long.clone()), Act::FPrint0(long.clone())] {
+                    out.push(E::and(E::A(longa.clone()), E::A(short.clone())));
+                    out.push(E::list(E::A(short.clone()), E::A(longa)));
+                }
+            }
+        }
+    }
+    // standard output next to files whose name spells a label of it
+    for name in ["", "stdout", "stdout:", "/dev/stdout", "-", "Stdout", "#f", "current-output-port"] {
+        for so in [Act::Print, Act::Print0, Act::Printf(fmt())] {
+            for fa in [Act::FPrint(s(name)), Act::FPrint0(s(name)), Act::FPrintf(s(name), fmt())] {
+                out.push(E::and(E::A(so.clone()), E::A(fa.clone())));
+                out.push(E::and(E::A(fa), E::A(so.clone())));
+            }
+        }
+    }
+    out
 }
